@@ -89,6 +89,12 @@ def role_table(eng, entry_path):
             tgt = local_target(eng, t)
             if tgt in ROLE_SITES:
                 role, ai = ROLE_SITES[tgt]
+                # the role argument is found by its parameter name when the helper has one (its parameter list may have changed)
+                k = eng.prog.bodies[tgt].param_index(ROLE_PARAM.get(role, '')) if tgt in eng.prog.bodies else None
+                if k is not None:
+                    ai = k - 1
+                if ai >= len(t['args']):
+                    raise AnchorMissing('argument %d (role %s) of %s' % (ai, role, tgt))
                 at = fr.lift(fr.fd.read_op(t['args'][ai]))
                 cs = const_names(at, eng.prog.free_consts())
                 res.setdefault(role, set()).add(cs)
